@@ -292,6 +292,21 @@ Rebuild(g) ==
                 NoAdd, NoAdd, NoAdd, NoAdd)
        /\ UNCHANGED <<sbases, ssro, regs, subs, rbases>>
 
+\* The lookup object is created anew over the populated registry
+\* (_createLookup(): what __setstate__ of a persistent registry does after
+\* loading; rebuild() does it too).  init_extendors re-derives the extendor
+\* lists from _provided, in whatever order that mapping lists the interfaces:
+\* any "more general first" linear extension; nothing is cached any more.
+Relookup(g) ==
+    LET live == {p \in Provs : pcount[g][p] > 0}
+    IN /\ \E x \in [Provs -> UNION {Perms(T) : T \in SUBSET live}] :
+             /\ \A i \in Provs :
+                   /\ SeqSet(x[i]) = {p \in live : i \in PAnc(p)}
+                   /\ GeneralFirst(x[i])
+             /\ ext' = [ext EXCEPT ![g] = x]
+       /\ Touch({g}, {}, rbases, {}, NoAdd, NoAdd, NoAdd, NoAdd)
+       /\ UNCHANGED <<sbases, ssro, regs, subs, pcount, rbases>>
+
 \* __bases__ reassignment of a required specification (interface or
 \* declaration): every lookup object watching s or a descendant of s hears
 \* about it (Specification.changed -> dependents -> lookup.changed)
